@@ -54,4 +54,6 @@ VARIANTS += [
     M('C11', 'revert-fix-F37-max-files-keyword', E(GT, "        params['max_snapshot_files'] = flags.max_files", "        params['max_files'] = flags.max_files"), rule='C11-FLAGKW', key='-m 7'),
     M('C11', 'colliding-copy-recorded-in-the-run-directory', E(GT, "                mapped_ref_path = self.ref_path(path) + str(suffix)", "                mapped_ref_path = ref_path"), rule='C11-REFMAP', key='copy_reference_files'),
     M('C11', 'command-with-percent-breaks-template', E(GT, "                'COMMAND': repr(self.command),", "                'COMMAND': repr(self.command) % (),"), rule='C11-SCRIPT', key='command-7'),
+    M('C11', 'ref-subdir-strips-every-underscore', E(GT, "        return name[1:] if name.startswith('_') else name", "        return name.lstrip('_')"),
+      rule='C11-REFDIR', key='ref_subdir'),
 ]
